@@ -171,7 +171,15 @@ func WithHostname(hostname string) Option {
 func WithMounts(mounts map[string]*Mount) Option {
 	return func(vos *VirtualOS) {
 		for k, v := range mounts {
-			vos.mounts[k] = v
+			// The table is searched with cleaned paths: the mount point is
+			// cleaned as well ("/a/" is "/a"), and it is what the mount is
+			// known by, whatever the Target of the value says
+			if v == nil {
+				continue
+			}
+			target := filepath.Clean(k)
+			mount := &Mount{Source: v.Source, Target: target, Type: v.Type}
+			vos.mounts[target] = mount
 		}
 	}
 }
